@@ -18,10 +18,10 @@ fn seq_all(focus: Focus, scale: u64) -> Vec<Job> {
     use Entry::*;
     let tag = format!("{:?}", focus).to_lowercase();
     vec![
-        seq(&format!("seq-mem-lib-{tag}"), Memory, Lib, focus, 6000 * scale, 300_000 * scale),
-        seq(&format!("seq-mem-http-{tag}"), Memory, Http, focus, 4000 * scale, 200_000 * scale),
-        seq(&format!("seq-sqlite-lib-{tag}"), Sqlite, Lib, focus, 1200 * scale, 60_000 * scale),
-        seq(&format!("seq-sqlite-http-{tag}"), Sqlite, Http, focus, 1200 * scale, 60_000 * scale),
+        seq(&format!("seq-mem-lib-{tag}"), Memory, Lib, focus, 12_000 * scale, 300_000 * scale),
+        seq(&format!("seq-mem-http-{tag}"), Memory, Http, focus, 8000 * scale, 200_000 * scale),
+        seq(&format!("seq-sqlite-lib-{tag}"), Sqlite, Lib, focus, 2400 * scale, 60_000 * scale),
+        seq(&format!("seq-sqlite-http-{tag}"), Sqlite, Http, focus, 2400 * scale, 60_000 * scale),
     ]
 }
 
@@ -48,10 +48,10 @@ fn iso_all() -> Vec<Job> {
         thorough,
     };
     vec![
-        mk("iso-mem-lib", Memory, Lib, 5000, 250_000),
-        mk("iso-mem-http", Memory, Http, 3000, 150_000),
-        mk("iso-sqlite-lib", Sqlite, Lib, 1000, 50_000),
-        mk("iso-sqlite-http", Sqlite, Http, 1000, 50_000),
+        mk("iso-mem-lib", Memory, Lib, 10_000, 250_000),
+        mk("iso-mem-http", Memory, Http, 6000, 150_000),
+        mk("iso-sqlite-lib", Sqlite, Lib, 2000, 50_000),
+        mk("iso-sqlite-http", Sqlite, Http, 2000, 50_000),
     ]
 }
 
@@ -60,10 +60,10 @@ fn conc_all() -> Vec<Job> {
     use Entry::*;
     let mk = |name: &str, backend, entry, quick, thorough| Job { name: name.to_string(), kind: JobKind::Conc { backend, entry }, quick, thorough };
     vec![
-        mk("conc-mem-http", Memory, Http, 6000, 400_000),
-        mk("conc-mem-lib", Memory, Lib, 6000, 400_000),
-        mk("conc-sqlite-http", Sqlite, Http, 3000, 150_000),
-        mk("conc-sqlite-lib", Sqlite, Lib, 3000, 150_000),
+        mk("conc-mem-http", Memory, Http, 12_000, 400_000),
+        mk("conc-mem-lib", Memory, Lib, 12_000, 400_000),
+        mk("conc-sqlite-http", Sqlite, Http, 6000, 150_000),
+        mk("conc-sqlite-lib", Sqlite, Lib, 6000, 150_000),
     ]
 }
 
@@ -137,7 +137,7 @@ pub fn jobs_for(prop: &str) -> Vec<Job> {
             v.extend(wire_all());
             v
         }
-        "C13" => vec![twin(TwinMode::Backends, 2500, 120_000)],
+        "C13" => vec![twin(TwinMode::Backends, 6000, 120_000)],
         "C09" => iso_all(),
         _ => vec![],
     }
